@@ -699,6 +699,9 @@ class Server:
             write_speed_limit_per_connection,
         )
         self.throttle_per_user = {}
+        # dispatchers of sessions which have left `connections` and are
+        # waiting for their tasks to finish
+        self.ending = set()
         self.encoding = encoding
         self.ssl = ssl
         self.commands_mapping = {
@@ -819,6 +822,7 @@ class Server:
         for connection in self.connections.values():
             connection._dispatcher.cancel()
             tasks.append(connection._dispatcher)
+        tasks.extend(self.ending)
         logger.debug("waiting for %d tasks", len(tasks))
         await asyncio.wait(tasks)
 
@@ -1101,7 +1105,12 @@ class Server:
                 tasks_to_wait.append(task)
             self.connections.pop(key)
             if tasks_to_wait:
-                await asyncio.wait(tasks_to_wait)
+                # `close` waits for sessions which are winding up as well
+                self.ending.add(connection._dispatcher)
+                try:
+                    await asyncio.wait(tasks_to_wait)
+                finally:
+                    self.ending.discard(connection._dispatcher)
 
     @staticmethod
     def get_paths(connection, path):
